@@ -193,12 +193,21 @@ impl Gen {
             11 => RData::MINFO(MINFO { rmailbox: self.name(), emailbox: self.name() }),
             12 => RData::MX(MX { preference: self.u16(), exchange: self.name() }),
             13 => {
-                let n = self.rng.range(1, 4);
-                let mut t = TXT::new();
-                for _ in 0..n {
-                    t.add_char_string(self.cs());
+                if self.rng.chance(1, 6) {
+                    // built from text: split into character-strings by the library
+                    use std::convert::TryFrom;
+                    let len = *self.rng.pick(&[1usize, 7, 254, 255, 256, 509, 600, 1100]);
+                    let s: String = (0..len).map(|i| (b'a' + ((i + len) % 26) as u8) as char).collect();
+                    let leaked: &'static str = Box::leak(s.into_boxed_str());
+                    RData::TXT(TXT::try_from(leaked).unwrap())
+                } else {
+                    let n = self.rng.range(1, 4);
+                    let mut t = TXT::new();
+                    for _ in 0..n {
+                        t.add_char_string(self.cs());
+                    }
+                    RData::TXT(t)
                 }
-                RData::TXT(t)
             }
             14 => RData::SOA(SOA {
                 mname: self.name(),
